@@ -28,7 +28,7 @@ contract(
                     UNCHANGED],
     native_ensures=["same_multiset(result, events)", "result is not events",
                     "all(result[a].timestamp <= result[a + 1].timestamp for a in range(len(result) - 1))", UNCHANGED],
-    modifies=["alloc"], raises=[],
+    modifies=["alloc"], writes_fresh=["List.len", "List.items"], raises=[],
 )
 
 contract(
@@ -38,7 +38,7 @@ contract(
                     UNCHANGED],
     native_ensures=["same_multiset(result, events)", "result is not events",
                     "all(result[a].duration >= result[a + 1].duration for a in range(len(result) - 1))", UNCHANGED],
-    modifies=["alloc"], raises=[],
+    modifies=["alloc"], writes_fresh=["List.len", "List.items"], raises=[],
 )
 
 contract(
@@ -48,7 +48,7 @@ contract(
              "all(result[i] is events[i] for i in range(len(result)))",
              "count < 0 or len(result) == min(count, len(events))",
              UNCHANGED],
-    modifies=["alloc"], raises=[],
+    modifies=["alloc"], writes_fresh=["List.len", "List.items"], raises=[],
 )
 
 
@@ -77,7 +77,7 @@ contract(
         "sorted([id(e) for e in result] + [id(e) for e in filter_keyvals_real(events, key, vals, not exclude)]) == sorted(id(e) for e in events)",
         UNCHANGED,
     ],
-    modifies=["alloc"], raises=[],
+    modifies=["alloc"], writes_fresh=["List.len", "List.items"], raises=[],
 )
 
 
